@@ -242,11 +242,6 @@ def outs_of(ev):
     return [txt(ev[k]) for k in ("out", "outc", "outx", "outs", "outl") if k in ev]
 
 
-def shortest_fraction_digits(x):
-    d = Decimal(repr(abs(x)))
-    return max(0, -d.as_tuple().exponent)
-
-
 def digits_with_sign(x):
     return len(str(int(abs(x)))) + (1 if x < 0 else 0)
 
@@ -267,21 +262,8 @@ def classify(ev, msg, asan_report=None):
         return "huge-magnitude-buffer-overflow"
     if "crash" in ev or not finite:
         return None
-    if ev["dir"] in ("sn", "ns"):
-        if x == 0 or abs(x) >= 1:
-            return None
-        outs = set(outs_of(ev))
-        if len(outs) != 1:
-            return None
-        out = outs.pop()
-        if shortest_fraction_digits(x) <= 35:
-            return None
-        # exactly the failure of a conversion limited to 35 digits after the point
-        capped = ("%.35f" % x).rstrip("0")
-        capped = capped[:-1] if capped.endswith(".") else capped
-        if capped in ("0", "-0"):
-            return "tiny-prints-zero" if out == capped else None
-        return "fraction-beyond-35-digits" if out == capped else None
+    # (string(x) of small values: the %.35f cap - keys tiny-prints-zero, fraction-beyond-35-digits - is repaired: the
+    # precision now follows the binary exponent; a recurrence has no class and is a VIOLATION)
     if ev["dir"] == "round":
         a = arg_of(ev)
         if a is None or a != a:
@@ -400,7 +382,8 @@ def build_cases(tier, seed, wd, res):
 
 
 def boundary_subset(cases):
-    """cases whose value is near the magnitude boundaries (int64 range, the 101-byte buffer, the 35-digit cap)"""
+    """cases whose value is near the magnitude boundaries (int64 range, the former 101-byte buffer and 35-digit cap, the
+    smallest doubles: the longest strings, about 345 characters in a 351-byte buffer)"""
     out = []
     for c in cases:
         try:
